@@ -4,6 +4,8 @@ import JSight.RulesFullProofs
 import JSight.Props.C10
 import JSight.C02TextThm
 import JSight.AnnotExamples
+import JSight.C02TextThm2
+import JSight.C02TextGrammar2
 /-!
 # C02 — Scalar rules admit exactly the values their definitions describe (decision logic)
 
@@ -355,6 +357,285 @@ example (doc : List UInt8) :
   have h : Compile.litErr (compiledOf [55] (mk Lay.Ex.obInl.pairs)) [55] = some 602 := by decide +kernel
   rw [h]
   rfl
+
+/-! ## second part: the SPEC form, the property's own wording, the rule order
+
+`C02T.specOfRules EX pairs` = `RulesF.compile` of the parsed pairs: the `RulesF.LitSpecF` that `C02_accept_iff_full`
+speaks about. The compiler's node (`compiledOf`) lists the validators in written order with the format of a `type`
+rule last and reads the exclusive flags off the FIRST rule of that name; `RulesF.compile` keeps the written order and
+asks whether `exclusiveMinimum: true` occurs ANYWHERE. The two agree as SETS of validators because the constraint
+constructors refuse a repeated name (`C02T.facts_of_okCreate`), and a set is all `ValidateLiteralValue` sees. -/
+
+/-- **the validators as a set**: `ValidateLiteralValue` gives two nodes with the same kind, example, nullable flag and
+the same validators up to order and repetition the same verdict on every token -/
+theorem C02_validators_as_set (o : RulesF.Oracles) (l l' : RulesF.LitSpecF) (hk : l.kind = l'.kind) (he : l.ex = l'.ex)
+    (hn : l.nul = l'.nul) (hr : ∀ r, r ∈ l.rules ↔ r ∈ l'.rules) (tok : List UInt8) :
+    RulesF.litOKFull o l tok = RulesF.litOKFull o l' tok := C02T.litOKFull_congr o l l' hk he hn hr tok
+
+/-- … in particular a permutation of the validator list -/
+theorem C02_validators_perm (o : RulesF.Oracles) (l : RulesF.LitSpecF) (rs' : List RulesF.Rule) (hp : l.rules.Perm rs')
+    (tok : List UInt8) : RulesF.litOKFull o l tok = RulesF.litOKFull o { l with rules := rs' } tok :=
+  C02T.litOKFull_perm o l rs' hp tok
+
+/-- the compiled node and the spec node of an admissible rule set: same kind, example, nullable flag, same validators
+as a set -/
+theorem C02_text_spec_vs_compiled (EX : List UInt8) (ps : List C02T.Pair) (hok : okCreate ps = true) :
+    (specOfRules EX ps).kind = (compiledOf EX (mk ps)).kind ∧ (specOfRules EX ps).ex = (compiledOf EX (mk ps)).ex ∧
+    (specOfRules EX ps).nul = (compiledOf EX (mk ps)).nul ∧
+    ∀ r, r ∈ (specOfRules EX ps).rules ↔ r ∈ (compiledOf EX (mk ps)).rules :=
+  C02T.spec_vs_compiled EX ps (C02T.facts_of_okCreate hok)
+
+/-- **C02 at text level, SPEC form.** As `C02_text_level`, with the node written through `RulesF.compile` of the
+parsed rules and ANY oracles (no rule of the class reaches the standard library): the outcome of the whole pipeline on
+the two texts is `acc` exactly when `RulesF.litOKFull o (specOfRules EX rules) docTok`. -/
+theorem C02_text_level_spec (o : RulesF.Oracles) (a : Ann) (ha : a.isAnn = true) (EX s1 s2 : List UInt8) (ob : BObj)
+    (s3 tl : List UInt8) (hv : AnnValid a EX s1 s2 ob s3 tl) (hok : okRules EX ob.pairs = true)
+    (hex : RulesF.litOKFull o (specOfRules EX ob.pairs) EX = true)
+    (docTok ws0 ws1 : List UInt8) (hd : JsonScan.IsScalar (docTok.map JsonScan.classify))
+    (hw0 : JsonScan.IsWs (ws0.map JsonScan.classify)) (hw1 : JsonScan.IsWs (ws1.map JsonScan.classify)) :
+    E2E.validateText (annTextB a EX s1 s2 ob s3 tl) [] (ws0 ++ (docTok ++ ws1))
+      = if RulesF.litOKFull o (specOfRules EX ob.pairs) docTok then .acc else .rej :=
+  C02T.text_level_spec o a ha EX s1 s2 ob s3 tl hv hok hex docTok ws0 ws1 hd hw0 hw1
+
+/-- the statement left open by the first part holds -/
+theorem C02_text_level_spec_full_holds : C02_text_level_spec_full :=
+  fun o a ha EX s1 s2 ob s3 tl hv hok hex docTok ws0 ws1 hd hw0 hw1 =>
+    C02_text_level_spec o a ha EX s1 s2 ob s3 tl hv hok hex docTok ws0 ws1 hd hw0 hw1
+
+/-- **C02 at text level, in the property's own wording.** `S` is the rule set over structured tokens
+(`RulesF.SSpec`: the example, the nullable flag, the validators) that the written rules denote
+(`specOfRules … = S.toModel`, a decidable check on a concrete text); it is well-formed and applicable, and its EXAMPLE
+is a value it accepts. Then for every scalar token `tok` of a JSON document, with white space around it: the library
+(scanner, loader, compiler, checker, validator — all inside) accepts the document text exactly when `tok` is a `null`
+admitted by `nullable: true`, or has an admissible kind and satisfies every rule by its MEANING
+(`RulesF.Accepts`: min / max on the exact decimal value, precision on the fractional digits of the value, lengths on
+the UTF-8 bytes of the decoded string, uuid / date by their definitions, const by value, enum type-sensitively). -/
+theorem C02_text_level_meaning (o : RulesF.Oracles) (a : Ann) (ha : a.isAnn = true) (S : RulesF.SSpec) (hS : S.WF)
+    (hA : S.applicable = true) (s1 s2 : List UInt8) (ob : BObj) (s3 tl : List UInt8)
+    (hv : AnnValid a S.ex.bytes s1 s2 ob s3 tl) (hok : okRules S.ex.bytes ob.pairs = true)
+    (hm : specOfRules S.ex.bytes ob.pairs = S.toModel) (hex : RulesF.Accepts RulesF.EnumEq o S S.ex)
+    (tok : RulesF.STok) (ht : tok.WF) (ws0 ws1 : List UInt8) (hd : JsonScan.IsScalar (tok.bytes.map JsonScan.classify))
+    (hw0 : JsonScan.IsWs (ws0.map JsonScan.classify)) (hw1 : JsonScan.IsWs (ws1.map JsonScan.classify)) :
+    E2E.validateText (annTextB a S.ex.bytes s1 s2 ob s3 tl) [] (ws0 ++ (tok.bytes ++ ws1)) = .acc ↔
+      RulesF.Accepts RulesF.EnumEq o S tok := by
+  have hex' : RulesF.litOKFull o (specOfRules S.ex.bytes ob.pairs) S.ex.bytes = true := by
+    rw [hm]; exact (C02_accept_iff_full o S hS hA S.ex hS.1).2 hex
+  rw [C02_text_level_spec o a ha S.ex.bytes s1 s2 ob s3 tl hv hok hex' tok.bytes ws0 ws1 hd hw0 hw1, hm]
+  have hiff : RulesF.litOKFull o S.toModel tok.bytes = true ↔ RulesF.Accepts RulesF.EnumEq o S tok :=
+    C02_accept_iff_full o S hS hA tok ht
+  rw [← hiff]
+  cases RulesF.litOKFull o S.toModel tok.bytes <;> simp
+
+/-- **rule order.** Two annotations on the same EXAMPLE whose rule objects are permutations of each other (the same
+(name, value) pairs; each in any layout, either form, with or without trailing comma): the same documents are accepted
+— for EVERY document text, scalar or not, well-formed or not. -/
+theorem C02_text_rule_order (a a' : Ann) (ha : a.isAnn = true) (ha' : a'.isAnn = true)
+    (EX s1 s2 s1' s2' : List UInt8) (ob ob' : BObj) (s3 tl s3' tl' : List UInt8)
+    (hv : AnnValid a EX s1 s2 ob s3 tl) (hv' : AnnValid a' EX s1' s2' ob' s3' tl')
+    (hp : ob.pairs.Perm ob'.pairs) (hok : okRules EX ob.pairs = true) (doc : List UInt8) :
+    E2E.validateText (annTextB a EX s1 s2 ob s3 tl) [] doc = .acc ↔
+      E2E.validateText (annTextB a' EX s1' s2' ob' s3' tl') [] doc = .acc :=
+  C02T.text_rule_order a a' ha ha' EX s1 s2 s1' s2' ob ob' s3 tl s3' tl' hv hv' hp hok doc
+
+/-- the statement left open by the first part holds -/
+theorem C02_text_rule_order_full_holds : C02_text_rule_order_full :=
+  fun a a' ha ha' EX s1 s2 s1' s2' ob ob' s3 tl s3' tl' hv hv' hp hok doc =>
+    C02_text_rule_order a a' ha ha' EX s1 s2 s1' s2' ob ob' s3 tl s3' tl' hv hv' hp hok doc
+
+/-- … and when the EXAMPLE passes its own rules the two texts get the same OUTCOME (accept, reject, or the same
+document error at the same offset) on every document text -/
+theorem C02_text_rule_order_outcome (a a' : Ann) (ha : a.isAnn = true) (ha' : a'.isAnn = true)
+    (EX s1 s2 s1' s2' : List UInt8) (ob ob' : BObj) (s3 tl s3' tl' : List UInt8)
+    (hv : AnnValid a EX s1 s2 ob s3 tl) (hv' : AnnValid a' EX s1' s2' ob' s3' tl')
+    (hp : ob.pairs.Perm ob'.pairs) (hok : okRules EX ob.pairs = true)
+    (hex : RulesF.litOKFull Compile.noOracles (compiledOf EX (mk ob.pairs)) EX = true) (doc : List UInt8) :
+    E2E.validateText (annTextB a EX s1 s2 ob s3 tl) [] doc
+      = E2E.validateText (annTextB a' EX s1' s2' ob' s3' tl') [] doc :=
+  C02T.text_rule_order_outcome a a' ha ha' EX s1 s2 s1' s2' ob ob' s3 tl s3' tl' hv hv' hp hok hex doc
+
+/-- the conditions of the stages do not depend on the order either -/
+theorem C02_okRules_perm (EX : List UInt8) (ps ps' : List C02T.Pair) (hp : ps.Perm ps') (h : okRules EX ps = true) :
+    okRules EX ps' = true := C02T.okRules_perm EX hp h
+
+/-! Non-vacuity. `1 // {min: 0, max :5, }` denotes `S15` = (integer, example `1`, not nullable, [min 0, max 5]); against
+` 4⏎` the pipeline accepts and `4` lies in [0, 5] by value; the multi-line text with the rules swapped
+(`1 /*⏎ {max: 5,⏎ min: 0⏎}⏎*/⏎`) gets the same outcome on every document. -/
+
+def S15 : RulesF.SSpec := ⟨.i, .num [49], false, [.min [48] false, .max [53] false]⟩
+
+theorem num1 (d : Nat) (hd : 1 ≤ d ∧ d ≤ 9) : RulesF.IsNumeral [UInt8.ofNat (48 + d)] := by
+  refine ⟨⟨false, d, [], none, none⟩, by simp [Num.Numeral.wf], by simp [Num.Numeral.zeroExp], ?_⟩
+  have : d = 1 ∨ d = 2 ∨ d = 3 ∨ d = 4 ∨ d = 5 ∨ d = 6 ∨ d = 7 ∨ d = 8 ∨ d = 9 := by omega
+  rcases this with rfl | rfl | rfl | rfl | rfl | rfl | rfl | rfl | rfl <;> decide
+
+theorem S15_ok : S15.WF ∧ S15.applicable = true := by
+  refine ⟨⟨num1 1 (by omega), ?_⟩, by decide⟩
+  intro r hr
+  simp only [S15, List.mem_cons, List.not_mem_nil, or_false] at hr
+  rcases hr with rfl | rfl
+  · exact ⟨⟨false, 0, [], none, none⟩, by simp [Num.Numeral.wf], by simp [Num.Numeral.zeroExp], by decide⟩
+  · exact num1 5 (by omega)
+
+example : specOfRules S15.ex.bytes Lay.Ex.obInl.pairs = S15.toModel := by decide +kernel
+
+/-- `1 // {min: 0, max :5, }` accepts ` 4⏎`, and the meaning says why -/
+example : E2E.validateText (annTextB .inline Lay.Ex.one [32] [32] Lay.Ex.obInl [] []) [] ([32] ++ ([52] ++ [10])) = .acc ∧
+    RulesF.Accepts RulesF.EnumEq RulesF.noOracle S15 (.num [52]) := by
+  have hex : RulesF.Accepts RulesF.EnumEq RulesF.noOracle S15 S15.ex :=
+    (C02_accept_iff_full RulesF.noOracle S15 S15_ok.1 S15_ok.2 S15.ex S15_ok.1.1).1 (by decide +kernel)
+  have h := C02_text_level_meaning RulesF.noOracle .inline rfl S15 S15_ok.1 S15_ok.2 [32] [32] Lay.Ex.obInl [] []
+    Lay.Ex.annInl_valid (by decide +kernel) (by decide +kernel) hex (.num [52]) (num1 4 (by omega)) [32] [10] ex_doc4
+    (by simp [JsonScan.IsWs, JsonScan.classify, JsonScan.Cls.isWs])
+    (by simp [JsonScan.IsWs, JsonScan.classify, JsonScan.Cls.isWs])
+  have hacc : RulesF.Accepts RulesF.EnumEq RulesF.noOracle S15 (.num [52]) :=
+    (C02_accept_iff_full RulesF.noOracle S15 S15_ok.1 S15_ok.2 (.num [52]) (num1 4 (by omega))).1 (by decide +kernel)
+  exact ⟨h.2 hacc, hacc⟩
+
+/-- `max: 5,⏎ min: 0⏎` — the rules of `obMl` swapped -/
+def obSw : BObj := .rules ⟨[], Lay.Ex.nMax, 0, [32], Lay.Ex.v5, []⟩ [⟨[10, 32], Lay.Ex.nMin, 0, [32], Lay.Ex.v0, [10]⟩] none
+
+theorem annSw_valid : AnnValid .multi Lay.Ex.one [32] [10, 32] obSw [10] [42, 47, 10] := by
+  refine ⟨Lay.Ex.one_ok, by simp only [IsSpTabs]; decide, by simp only [ABlank]; decide, ⟨⟨?_, ?_⟩, ?_⟩,
+    by simp only [ABlank]; decide, .close [.nl] (by simp only [IsWs]; decide)⟩
+  · exact ⟨by simp only [ABlank, BRule.cls]; decide, Lay.Ex.nMax_ok, by simp only [ABlank, BRule.cls]; decide,
+      Lay.Ex.v5_ok, by simp only [ABlank, BRule.cls]; decide⟩
+  · intro x hx
+    simp only [List.map_cons, List.map_nil, List.mem_singleton] at hx
+    subst hx
+    exact ⟨by simp only [ABlank, BRule.cls]; decide, Lay.Ex.nMin_ok, by simp only [ABlank, BRule.cls]; decide,
+      Lay.Ex.v0_ok, by simp only [ABlank, BRule.cls]; decide⟩
+  · intro b5 h; cases h
+
+example : annTextB .multi Lay.Ex.one [32] [10, 32] obSw [10] [42, 47, 10] = bs "1 /*\n {max: 5,\n min: 0\n}\n*/\n" := by decide
+
+/-- `1 // {min: 0, max :5, }` and `1 /*⏎ {max: 5,⏎ min: 0⏎}⏎*/⏎`: one outcome on every document text -/
+example (doc : List UInt8) :
+    E2E.validateText (annTextB .inline Lay.Ex.one [32] [32] Lay.Ex.obInl [] []) [] doc
+      = E2E.validateText (annTextB .multi Lay.Ex.one [32] [10, 32] obSw [10] [42, 47, 10]) [] doc :=
+  C02_text_rule_order_outcome .inline .multi rfl rfl Lay.Ex.one [32] [32] [32] [10, 32] Lay.Ex.obInl obSw [] [] [10]
+    [42, 47, 10] Lay.Ex.annInl_valid annSw_valid (by decide) (by decide +kernel) (by decide +kernel) doc
+
+/-! ## third part: quoted names and `enum` — what is proved (loaded pairs) and what is stated (texts)
+
+After the loader a rule is the pair (name as `TrimSpaces().Unquote()` of the name token, value text): a quoted or
+`\u`-escaped name arrives as its decoded text, an `enum` list as the text from `[` to `]`. On such pairs the `enum`
+class is inside the theorems: `C02T.okRulesE` (the class of the first part, or: an `enum` rule beside at most `const`,
+`nullable`, `type: "enum"`), `C02_stages_compiledOf` (creation + `compileNode` compute `compiledOf`),
+`C02_closed_is_spec` (the closed form `C02T.closed` — the driver word `c02t`, compared with the real library by
+`vh c02-text` on quoted, escaped and enum spellings — is the spec verdict of `RulesF.compile` of the written rules) and
+`C02_text_is_closed` (on the texts of the first grammar the whole pipeline IS the closed form). The scanner + loader
+half for the EXTENDED grammar (`Lay.GObj`: quoted names, list values) is STATED (`…_full`), not proved: the run lemmas of
+`AnnotStep` / `AnnotRun` / `AnnotObj` are stated on `cfgA`, which pins the scanner's `boundaryQuote` flag to `false`; a
+quoted key leaves it `true` until the next key, so they all need the flag as a parameter. -/
+
+/-- **creation + `compileNode` on loaded pairs, `enum` class included**: the literal node `compiledOf` -/
+theorem C02_stages_compiledOf (EX : List UInt8) (ps : List C02T.Pair) (h : okRulesE EX ps = true) :
+    stages EX ps = .ok (.lit (compiledOf EX (mk ps)) false) := C02T.stages_ok EX ps h
+
+/-- **the closed form is the spec verdict**: for an admissible rule set of either class whose validators do not
+reach the standard library, any oracles and any document token, `closed` answers the code of the EXAMPLE's own first
+failing validator at offset 0, else `acc` / `rej` by `RulesF.litOKFull` on `RulesF.compile` of the written rules -/
+theorem C02_closed_is_spec (o : RulesF.Oracles) (EX : List UInt8) (ps : List C02T.Pair) (h : okRulesE EX ps = true)
+    (hstd : ∀ r ∈ (compiledOf EX (mk ps)).rules, C02T.usesStd r = false) (docTok : List UInt8) :
+    closed EX ps docTok = match Compile.litErr (compiledOf EX (mk ps)) EX with
+      | some c => .schemaErr c 0
+      | none => if RulesF.litOKFull o (specOfRules EX ps) docTok then .acc else .rej :=
+  C02T.closed_spec o EX ps h hstd docTok
+
+/-- an `enum` node of the class has no validator that reaches the standard library -/
+theorem C02_enum_class_no_std (EX : List UInt8) (ps : List C02T.Pair) (k : Rules.Kind)
+    (h : okBasicRE (mk ps) (Compile.JT.ofKind k) = true) :
+    ∀ r ∈ (compiledOf EX (mk ps)).rules, C02T.usesStd r = false := C02T.compiled_noStd_enum EX ps k h
+
+/-- **the text pipeline is the closed form** (first grammar): schema text and document text ↦ what `c02t` computes from
+the structured rule list — accepted, rejected, or refused by `Check` -/
+theorem C02_text_is_closed (a : Ann) (ha : a.isAnn = true) (EX s1 s2 : List UInt8) (ob : BObj)
+    (s3 tl : List UInt8) (hv : AnnValid a EX s1 s2 ob s3 tl) (hok : okRules EX ob.pairs = true)
+    (docTok ws0 ws1 : List UInt8) (hd : JsonScan.IsScalar (docTok.map JsonScan.classify))
+    (hw0 : JsonScan.IsWs (ws0.map JsonScan.classify)) (hw1 : JsonScan.IsWs (ws1.map JsonScan.classify)) :
+    E2E.validateText (annTextB a EX s1 s2 ob s3 tl) [] (ws0 ++ (docTok ++ ws1)) = closed EX ob.pairs docTok :=
+  C02T.text_eq_closed a ha EX s1 s2 ob s3 tl hv hok docTok ws0 ws1 hd hw0 hw1
+
+/-- the same on the EXTENDED grammar (`Lay.GObj`: bare or quoted names — any JSON string, `\uXXXX` included —, literal
+or list values): the statement that contains `C02_text_level_quoted` and `C02_text_level_enum`. Stated, not proved;
+`vh c02-text` evaluates it against the real library (quoted / escaped names, enum lists, permutations: 0 diffs). -/
+def C02_text_is_closed_extended_full : Prop :=
+  ∀ (a : Ann), a.isAnn = true → ∀ (EX s1 s2 : List UInt8) (ob : GObj) (s3 tl : List UInt8),
+    GAnnValid a EX s1 s2 ob s3 tl → okRulesE EX ob.pairs = true →
+    ∀ (docTok ws0 ws1 : List UInt8), JsonScan.IsScalar (docTok.map JsonScan.classify) →
+    JsonScan.IsWs (ws0.map JsonScan.classify) → JsonScan.IsWs (ws1.map JsonScan.classify) →
+    E2E.validateText (gannText a EX s1 s2 ob s3 tl) [] (ws0 ++ (docTok ++ ws1)) = closed EX ob.pairs docTok
+
+/-- quoted names, literal values -/
+def C02_text_level_quoted_full : Prop :=
+  ∀ (o : RulesF.Oracles) (a : Ann), a.isAnn = true → ∀ (EX s1 s2 : List UInt8) (ob : GObj) (s3 tl : List UInt8),
+    GAnnValid a EX s1 s2 ob s3 tl → ob.literalValues → okRules EX ob.pairs = true →
+    RulesF.litOKFull o (specOfRules EX ob.pairs) EX = true →
+    ∀ (docTok ws0 ws1 : List UInt8), JsonScan.IsScalar (docTok.map JsonScan.classify) →
+    JsonScan.IsWs (ws0.map JsonScan.classify) → JsonScan.IsWs (ws1.map JsonScan.classify) →
+    E2E.validateText (gannText a EX s1 s2 ob s3 tl) [] (ws0 ++ (docTok ++ ws1))
+      = if RulesF.litOKFull o (specOfRules EX ob.pairs) docTok then .acc else .rej
+
+/-- the `enum` class (K-C10-enumtext applies: the items are compared as `RulesF.ruleOK … (.enum items)` does — numbers
+by source text) -/
+def C02_text_level_enum_full : Prop :=
+  ∀ (o : RulesF.Oracles) (a : Ann), a.isAnn = true → ∀ (EX s1 s2 : List UInt8) (ob : GObj) (s3 tl : List UInt8),
+    GAnnValid a EX s1 s2 ob s3 tl → okRulesE EX ob.pairs = true →
+    RulesF.litOKFull o (specOfRules EX ob.pairs) EX = true →
+    ∀ (docTok ws0 ws1 : List UInt8), JsonScan.IsScalar (docTok.map JsonScan.classify) →
+    JsonScan.IsWs (ws0.map JsonScan.classify) → JsonScan.IsWs (ws1.map JsonScan.classify) →
+    E2E.validateText (gannText a EX s1 s2 ob s3 tl) [] (ws0 ++ (docTok ++ ws1))
+      = if RulesF.litOKFull o (specOfRules EX ob.pairs) docTok then .acc else .rej
+
+/-- the two follow from the extended closed-form statement and the theorems above -/
+theorem C02_text_level_enum_of_closed (h : C02_text_is_closed_extended_full) : C02_text_level_enum_full := by
+  intro o a ha EX s1 s2 ob s3 tl hv hok hex docTok ws0 ws1 hd hw0 hw1
+  have hE := hok
+  simp only [okRulesE, Bool.and_eq_true, Bool.or_eq_true] at hE
+  have hstd : ∀ r ∈ (compiledOf EX (mk ob.pairs)).rules, C02T.usesStd r = false := by
+    rcases hE.2 with hb | hb
+    · exact C02T.compiled_noStd EX ob.pairs (by simp [okRules, okBasic, hE.1.1, hE.1.2, hb])
+    · exact C02T.compiled_noStd_enum EX ob.pairs _ hb
+  rw [h a ha EX s1 s2 ob s3 tl hv hok docTok ws0 ws1 hd hw0 hw1, C02_closed_is_spec o EX ob.pairs hok hstd docTok]
+  have hex' : RulesF.litOKFull Compile.noOracles (compiledOf EX (mk ob.pairs)) EX = true := by
+    rw [← C02T.spec_eq_compiled _ EX ob.pairs (C02T.facts_of_okCreate hE.1.2),
+      C02T.litOKFull_oracle Compile.noOracles o _ ?_ EX]
+    · exact hex
+    · intro r hr
+      exact hstd r (((C02T.spec_vs_compiled EX ob.pairs (C02T.facts_of_okCreate hE.1.2)).2.2.2 r).1 hr)
+  rw [(C02T.litErr_none_iff _ _).2 hex']
+
+theorem C02_text_level_quoted_of_closed (h : C02_text_is_closed_extended_full) : C02_text_level_quoted_full :=
+  fun o a ha EX s1 s2 ob s3 tl hv _ hok hex docTok ws0 ws1 hd hw0 hw1 =>
+    C02_text_level_enum_of_closed h o a ha EX s1 s2 ob s3 tl hv (C02T.okRulesE_of_okRules hok) hex docTok ws0 ws1 hd hw0 hw1
+
+/-! Non-vacuity: `"b" // {"\u0065num": ["a", "b"], const: false}` as loaded pairs — name decoded, list as text. -/
+
+example : (GName.quoted [.u4 48 48 54 53, .chr 'n', .chr 'u', .chr 'm']).spell = bs "\"\\u0065num\"" ∧
+    (GName.quoted [.u4 48 48 54 53, .chr 'n', .chr 'u', .chr 'm']).meaning = bs "enum" := by
+  constructor
+  · decide
+  · simp only [GName.meaning, RulesF.text, RulesF.decodeS]; decide +kernel
+example : (GVal.list [] [⟨[], bs "\"a\"", []⟩, ⟨[32], bs "\"b\"", []⟩]).spell = bs "[\"a\", \"b\"]" := by decide
+example : okRulesE (bs "\"b\"") [(bs "enum", bs "[\"a\", \"b\"]"), (bs "const", bs "false")] = true := by decide +kernel
+example : okRulesE (bs "2") [(bs "type", bs "\"enum\""), (bs "enum", bs "[1, 2, \"x\", null]"), (bs "nullable", bs "true")] = true := by
+  decide +kernel
+example : okRulesE (bs "2") [(bs "enum", bs "[1, 2]"), (bs "min", bs "1")] = false := by decide +kernel
+-- the closed form on this node: `"b"` and `"\u0062"` accepted, `"c"` rejected; an EXAMPLE outside its list is refused (610)
+#guard closed (bs "\"b\"") [(bs "enum", bs "[\"a\", \"b\"]"), (bs "const", bs "false")] (bs "\"\\u0062\"") == .acc
+#guard closed (bs "\"b\"") [(bs "enum", bs "[\"a\", \"b\"]"), (bs "const", bs "false")] (bs "\"c\"") == .rej
+#guard closed (bs "\"c\"") [(bs "enum", bs "[\"a\", \"b\"]")] (bs "\"a\"") == .schemaErr 610 0
+-- … and through the theorem: the verdict on `"\u0062"` is `RulesF.litOKFull` on the spec node
+example : closed (bs "\"b\"") [(bs "enum", bs "[\"a\", \"b\"]"), (bs "const", bs "false")] (bs "\"\\u0062\"") = .acc := by
+  rw [C02_closed_is_spec RulesF.noOracle _ _ (by decide +kernel)
+    (C02_enum_class_no_std _ _ .s (by decide +kernel))]
+  have h1 : Compile.litErr (compiledOf (bs "\"b\"") (mk [(bs "enum", bs "[\"a\", \"b\"]"), (bs "const", bs "false")]))
+      (bs "\"b\"") = none := by decide +kernel
+  have h2 : RulesF.litOKFull RulesF.noOracle
+      (specOfRules (bs "\"b\"") [(bs "enum", bs "[\"a\", \"b\"]"), (bs "const", bs "false")]) (bs "\"\\u0062\"") = true := by
+    decide +kernel
+  rw [h1]
+  simp only [h2, if_true]
 
 end TextLevel
 
